@@ -87,6 +87,22 @@ def _h_multi(ctx, n, n_nan, ypat, labels, params, with_dev):
             got = list(out[f"f_{ci}"])
             ctx.require(col_equal(got, expected[ci]), "C12.differs-from-binary-carver",
                         f"column f_{ci} = {got!r} but BinaryCarver(same parameters) on 1[y={ci}] gives {expected[ci]!r}")
+        # a frame that already holds columns named like the generated ones (an earlier output, or an unrelated column
+        # that happens to be called f_<class>): the generated columns are still computed from the raw feature
+        kept_ci = [ci for ci in classes[1:] if expected[ci] is not None]
+        if kept_ci:
+            X2 = X.copy()
+            for ci in kept_ci:
+                X2.insert(0, f"f_{ci}", list(X["f"])[::-1])
+            out2 = mc.transform(X2)
+            out3 = mc.transform(out.copy())
+            for what, o in (("pre-existing (stale) columns", out2), ("an already transformed frame", out3)):
+                ctx.require("f" in o.columns and col_equal(list(o["f"]), list(X["f"])), "C12.raw-column-changed", f"transform of a frame with {what}: raw feature column not returned unchanged")
+                for ci in kept_ci:
+                    ctx.require(f"f_{ci}" in o.columns and not isinstance(o[f"f_{ci}"], pd.DataFrame), "C12.columns", f"transform of a frame with {what}: column f_{ci} missing or duplicated ({list(o.columns)})")
+                    got = list(o[f"f_{ci}"])
+                    ctx.require(col_equal(got, expected[ci]), "C12.differs-from-binary-carver",
+                                f"transform of a frame with {what}: column f_{ci} = {got!r} but BinaryCarver(same parameters) on 1[y={ci}] gives {expected[ci]!r}")
     return dict(counters={"ok": 1}, sample=dict(ypat=ypat, labels=labels, cols=list(out.columns)), result=dict(cols=sorted(out.columns)))
 
 
